@@ -6,6 +6,7 @@ Events:
     ["call", {...}]                  buffetTraffic / cacheTraffic / filterTrace / _combineTraces, optionally
                                      aborted at file event n (SimAbort) or failing there with OSError
 """
+import copy
 import os
 
 import fibertree.model.traffic as MT
@@ -193,6 +194,23 @@ class PipelineSim(WorldBase):
                     kind = "abort" if (k % 5) else "enospc"
                     self.q.append(["call", dict(call, fault_at=k, fault_kind=kind)])
                     self.q.append(["call", dict(call)])
+                if self.q:
+                    return self.q.pop(0)
+        if self.stage == 1:
+            # a second use of the models in the same process: the same trace file names hold other traces now
+            # (another kernel collected under the same prefix), or a format the caller kept was given another width
+            self.stage = 2
+            if self.cfg["kind"] in ("buffet", "cache") and self.last_call is not None and g.random() < 0.5:
+                if g.random() < 0.5:
+                    self.q = [ev if ev[0] != "call" else ["call", dict(ev[1], id="p2" + ev[1].get("id", "c0"))]
+                              for ev in self._plan(g) if ev[0] in ("trace", "call")]
+                else:
+                    names = [n for n in self.last_call.get("tensors", []) if n in self.traces
+                             and not self.traces[n].get("upper") and "btype" not in self.traces[n]]
+                    le = self.last_call.get("line_elems", 1)
+                    if names and le % 2 == 0:
+                        self.q = [["respec", {"name": names[0], "pbits": 64}],
+                                  ["call", dict(self.last_call, id="r0")]]
                 if self.q:
                     return self.q.pop(0)
         return None
@@ -397,6 +415,8 @@ class PipelineSim(WorldBase):
                 return self.ev_stale(ev[1])
             if kind == "call":
                 return self.ev_call(ev[1])
+            if kind == "respec":
+                return self.ev_respec(ev[1])
             raise Skip("unknown")
         except Skip as e:
             return {"status": "skipped", "why": str(e)}
@@ -405,7 +425,10 @@ class PipelineSim(WorldBase):
         return os.path.join(self.dir, f"{name}-{side}.csv")
 
     def ev_trace(self, spec):
+        spec = copy.deepcopy(spec)         # event arguments are never modified (ev_respec changes the world's copy)
         order = spec["order"]
+        # (traces replaced under the same names: comparisons across capacities start afresh)
+        self.clean.pop(("sweepcap", spec["tensor"]), None)
         head = ",".join([r + "_pos" for r in order] + list(order) + ["fiber_pos"]) + "\n"
         for side, rows in (("read", spec["rows"]), ("write", spec.get("wrows"))):
             if rows is None:
@@ -498,10 +521,16 @@ class PipelineSim(WorldBase):
 
     def _formats(self, tensors, line_elems):
         fmts = {}
+        keep = self.__dict__.setdefault("fmt_keep", {})
         for name in tensors:
             spec = self.traces.get(name)
             if spec is None:
                 raise Skip("no such trace")
+            if name in keep and keep[name][0] is spec:
+                # the caller keeps its Format objects between calls
+                fmts[name] = keep[name][1]
+                self.probe("format_object_kept_between_calls")
+                continue
             t = Tensor(rank_ids=list(spec["tranks"]), shape=list(spec["shape"]))
             fs = {}
             for r in spec["tranks"]:
@@ -509,7 +538,21 @@ class PipelineSim(WorldBase):
                 if spec.get("btype") == "elem" and r == spec["order"][-1]:
                     fs[r]["layout"] = "interleaved"       # an "elem" binding needs an array-of-structs rank
             fmts[name] = Format(t, fs)
+            keep[name] = (spec, fmts[name])
         return fmts
+
+    def ev_respec(self, a):
+        """the caller changes a width in the format specification it holds (fmt.spec[rank][...]) between two calls"""
+        spec = self.traces.get(a["name"])
+        keep = self.__dict__.setdefault("fmt_keep", {})
+        if spec is None or a["name"] not in keep or keep[a["name"]][0] is not spec:
+            raise Skip("no kept format")
+        rank = spec["order"][-1]
+        fmt = keep[a["name"]][1]
+        fmt.spec[rank]["pbits"] = a["pbits"]
+        spec.setdefault("pbits", {})[rank] = a["pbits"]
+        self.probe("format_width_changed_between_calls")
+        return {"rank": rank}
 
     def ev_call(self, a):
         fn = a["fn"]
